@@ -302,6 +302,9 @@ class Shapes:
                 return STR
             if f[0] == "attr" and f[2] in ("split", "rsplit"):
                 return STR
+        if base[0] == "sub" and base[2][0] == "slice" and base[1][0] == "call" and base[1][1][0] == "attr" and \
+                base[1][1][2] in ("split", "rsplit"):
+            return STR      # an element of a slice of a split() result is one of its pieces
         if base[0] == "elem":
             return self.top
         return self.top
@@ -442,6 +445,20 @@ class Shapes:
             if m in ("isascii", "isdigit", "isprintable", "startswith", "endswith", "isalpha"):
                 return INT
             if m == "format":
+                # a template in any spelling: literal text makes it non-empty, otherwise the pieces decide
+                from .strtpl import flatten
+                parts = flatten(t)
+                if parts != [("val", t)]:
+                    shapes = []
+                    for p_ in parts:
+                        if p_[0] == "lit":
+                            shapes.append(frozenset({NE if p_[1] else E}))
+                        elif p_[0] == "fmt":
+                            shapes.append(frozenset({NE}))
+                        else:
+                            x = sh(p_[1])
+                            shapes.append(x if x <= STR else (frozenset({NE}) if not (x & STR) else frozenset({E, NE})))
+                    return _concat(shapes)
                 return STR
             if m == "compressed":
                 return frozenset({NE})
